@@ -240,3 +240,38 @@ def aggregate(prop, results, extra_args=(), crash_owner_fn=None):
         "observed": stats,
     }
     return cov, viols, inconc
+
+
+class GrowthCfg(VCfg):
+    def __init__(self, flav, n, elem, alloc, st, std="c++17", compiler="g++"):
+        VCfg.__init__(self, flav, n, elem, alloc, st, "v", std, compiler)
+        self.name = "gr_" + self.name
+
+    def source(self):
+        e = ELEMS[self.elem]
+        a = alloc_expr(self.alloc, e)
+        v = vec_expr(self.flav, self.n, e, a, self.st)
+        return '#define VF_CFG_NAME "%s"\n#include "vec_common.hpp"\nusing Elem = %s;\nusing Vec = %s;\n#include "vec_growth_main.hpp"\n' % (self.name, e, v)
+
+    def spec(self):
+        return {"name": self.name, "source": self.source(), "std": self.std, "compiler": self.compiler, "extra": ["-DAMC_NONSTD_FEATURES"]}
+
+
+GROWTH_QUICK = [
+    GrowthCfg("v", 0, "NTR", "basic", "uint32_t"),
+    GrowthCfg("v", 0, "TR", "realloc", "uint16_t"),
+    GrowthCfg("v", 0, "TC4", "amc", "uint8_t"),
+    GrowthCfg("s", 1, "TR", "basic", "uint32_t"),
+    GrowthCfg("s", 4, "NTR", "exact", "uint32_t"),
+    GrowthCfg("s", 4, "TC4", "realloc", "uint8_t"),
+    GrowthCfg("s", 8, "TC12", "std", "uint64_t"),
+    GrowthCfg("s", 8, "NTR", "basic", "int16_t"),
+]
+GROWTH_THOROUGH = [
+    GrowthCfg("v", 0, "NTR", "exact", "int8_t"),
+    GrowthCfg("v", 0, "TC1", "basic", "uint64_t"),
+    GrowthCfg("s", 2, "TR", "amc", "uint16_t"),
+    GrowthCfg("s", 16, "TC8", "basic", "uint32_t"),
+    GrowthCfg("s", 4, "NTR", "basic", "uint32_t", compiler="clang++-14"),
+    GrowthCfg("v", 0, "TR", "realloc", "uint32_t", std="c++20"),
+]
